@@ -67,6 +67,8 @@ SEEDS = {
     'C13f': ('C13', ['C13', 'C12'], 'metadata writer caches the current subdirectory on the writer object and recomputes it only when the file time passes its end', 'a write into a subdirectory earlier than the one of a previous write on the same writer object'),
     'C15f': ('C15', ['C15'], 'event filter compares integer milliseconds: the start bound is floored to whole milliseconds', 'starttime with a sub-millisecond part and a file less than 1 ms before it'),
     'C18f': ('C18', ['C18'], 'ln --symbolic creates relative links computed from the path text', 'destination reached through a symlinked directory with a different depth'),
+    'C04f': ('C04', ['C04', 'C03'], 'gmtime replaced by a hand-written calendar conversion whose leap-day compensation is off by one (Feb 29 comes out as Mar 1)', 'a subdirectory start on Feb 29 of a leap year'),
+    'C09f': ('C09', ['C09', 'C02', 'C10'], 'writer close no longer closes the index dataset and dataspaces before H5Fclose: the real flush happens after the rename', 'a reader touching the last file between the rename and the release of the handles during close()'),
     'C02': ('C02', ['C02', 'C09'], 'existence check of the finished name skipped when the subdirectory was "just created" (in effect always)',
             'a second session writing into a period whose finalized file exists'),
     'C02b': ('C02', ['C02'], 'a failed exclusive create on an existing tmp name no longer marks the writer failed: close publishes the stale tmp file',
